@@ -854,6 +854,8 @@ def builtin(I, name, a, kwargs, node, _no_override=False):
             if len(ls) == 1 and None not in ls:
                 return Const(ls.pop())
         return Top("len of symbolic")
+    if name in ("str", "repr", "format") and a and isinstance(a[0], Obj) and any(m_ in a[0].fields for m_ in ("__str__", "__fspath__")):
+        return I.call(a[0].fields.get("__str__") or a[0].fields["__fspath__"], [], {}, node)  # a model object that knows its text (a model path)
     if name in ("bool", "int", "float", "str", "abs", "round"):
         v = a[0] if a else Const({"bool": False, "int": 0, "float": 0.0, "str": ""}.get(name))
         if isinstance(v, Const):
@@ -937,7 +939,12 @@ def builtin(I, name, a, kwargs, node, _no_override=False):
             raise _Raise(f"{name}() of an empty sequence")
         return Top(f"{name}(...)", deps=[l for x in a for l in I.leaves(x)])
     if name == "getattr":
-        return I.getattr(a[0], a[1].v) if isinstance(a[1], Const) else Top("getattr")
+        if not isinstance(a[1], Const):
+            return Top("getattr")
+        if len(a) > 2 and isinstance(a[0], Obj) and a[1].v not in a[0].fields and not (getattr(a[0], "klass", None) is not None and I.find_class_attr(a[0].klass[0], a[0].klass[1], a[1].v) is not None) \
+                and a[0].cls in ("Exception", "ExceptionGroup", "Container", "Context"):
+            return a[2]  # a model object whose attributes are all spelled out: the attribute is absent, the default applies
+        return I.getattr(a[0], a[1].v)
     if name == "object":
         return Sentinel(f"sentinel{id(node)}")
     if name == "type":
@@ -966,6 +973,13 @@ def builtin(I, name, a, kwargs, node, _no_override=False):
             raise ShapeError(f"iter() of {a[0]!r:.60}")
         # the elements as they are now (a container changed while one of its iterators is alive is not modelled)
         return Obj("iterator", OrderedDict(items=ListLit(list(I.iterate(a[0], node))), pos=Const(0)))
+    if name == "next" and a and isinstance(a[0], ListLit) and getattr(a[0], "pyname", None) == "generator":
+        # a generator expression (evaluated eagerly): next() takes its first remaining element
+        if a[0].elts:
+            return a[0].elts.pop(0)
+        if len(a) > 1:
+            return a[1]
+        raise _Raise("StopIteration", ["StopIteration", "Exception", "BaseException", "object"])
     if name == "next" and a and isinstance(a[0], Obj) and a[0].cls == "iterator":
         for x in I.iterate(a[0], node):
             return x
